@@ -236,7 +236,10 @@ class RTDC_Hierarchy(RTDCBase):
         # update event index
         event_count = len(self)
         self._events.clear()
-        self._events["index"] = np.arange(1, event_count + 1)
+        index = np.arange(1, event_count + 1)
+        # the cached array is handed out to the user
+        index.setflags(write=False)
+        self._events["index"] = index
         # set non-scalar column data
         for feat in ["image", "image_bg", "mask"]:
             if feat in self.hparent:
